@@ -83,7 +83,7 @@ fn package_is_wasm(db: &Db, package: &PackageAddress) -> bool {
 
 impl Catalog {
     /// Enumerate all packages present in `db`, skipping the ones in `skip` (the harness' own proxy).
-    pub fn build(sim: &rv_ledger::Sim, skip: &[PackageAddress]) -> Catalog {
+    pub fn build<E: NativeVmExtension>(sim: &LedgerSimulator<E, InMemorySubstateDatabase>, skip: &[PackageAddress]) -> Catalog {
         let db = sim.substate_db();
         let reader = SystemDatabaseReader::new(db);
         let mut packages = sim.find_all_packages();
